@@ -165,12 +165,15 @@ def main():
         for fn in h.get("functions", []):
             functions_under_contract.append(("bounded:" if is_bounded else "") + fn)
         if r["status"] == "fail":
-            for fl in r.get("fails", []) or [{"desc": "verification failed"}]:
-                if "unwinding assertion" in fl["desc"]:
-                    continue
+            # one failing harness can list hundreds of failed CBMC checks (code that only becomes reachable once the
+            # contract is broken): report the harness's own assertions first and at most five checks per harness
+            fls = [fl for fl in (r.get("fails", []) or [{"desc": "verification failed"}]) if "unwinding assertion" not in fl["desc"]]
+            fls.sort(key=lambda fl: 0 if "assertion failed" in fl["desc"] else 1)
+            for fl in (fls[:5] or [{"desc": "verification failed"}]):
                 key = f"kani:{h['name']}:{fl.get('in','')}:{fl['desc']}"
+                more = f" (+{len(fls) - 5} further failed checks in this harness)" if len(fls) > 5 and fl is fls[4] else ""
                 violations.append({"key": key, "backend": "kani", "harness": h, "function": fl.get("in", ""),
-                                   "obligation": fl["desc"], "output": r.get("raw_tail", ""), "replay": None})
+                                   "obligation": fl["desc"] + more, "output": r.get("raw_tail", ""), "replay": None})
 
     # syntactic frame checks (reported as syntactic, counted separately)
     synt = []
